@@ -508,7 +508,7 @@ func buildC07(tier string) *core.Plan {
 		}}
 
 	return &core.Plan{
-		Spaces: []core.Space{inject, required, multiDoc, scalarSpace, yamlSpace, c07AfterOutput()},
+		Spaces: []core.Space{inject, required, multiDoc, scalarSpace, yamlSpace, c07AfterOutput(), c07EscapedSpellings()},
 		Rule: "every single injection of every marker (15 string markers as value/entry/key, 10 directive keys x 5 argument kinds with and without an extra key) into every base tree, " +
 			"each evaluated plain, under $output: false, re-selected by $output: true below a hidden parent, inside $encode: json and as a lower layer; every lower layer with $required at any positions x every subset overridden",
 		Assumptions: []string{"invariant: a successful output contains no key or string equal to $required or matching ^\\$\\p{Ll} (inputs contain no $$)",
@@ -626,5 +626,61 @@ func c07AfterOutput() core.Space {
 				return
 			}
 			c.Outcome("refused-either-way")
+		}}
+}
+
+// c07EscapedSpellings: the marker written with the escape sequences of the file formats (no literal
+// dollar byte in the file), through the library and through `bkl -o`: refused, non-zero status.
+func c07EscapedSpellings() core.Space {
+	cases := []struct{ ext, text string }{
+		{"json", "{\"a\": \"\\u0024required\"}\n"},
+		{"json", "{\"\\u0024bogus\": 1}\n"},
+		{"json", "{\"l\": [1, {\"k\": \"\\u0024required\"}]}\n"},
+		{"yaml", "a: \"\\x24required\"\n"},
+		{"yaml", "a: \"\\u0024required\"\nb: 1\n"},
+		{"yaml", "\"\\x24nope\": 1\n"},
+		{"toml", "a = \"\\u0024required\"\n"},
+		{"toml", "[t]\nk = \"\\u0024required\"\n"},
+		// controls with a literal dollar
+		{"json", "{\"a\": \"$required\"}\n"},
+		{"yaml", "a: $required\n"},
+	}
+	return core.Space{Name: "markers-spelt-with-escape-sequences", N: int64(len(cases)), Chunk: 2,
+		Desc: func(i int64) any { return cases[i] },
+		Run: func(c *core.Ctx, i int64) {
+			cs := cases[i]
+			dir := scratchDir()
+			defer os.RemoveAll(dir)
+			in := filepath.Join(dir, "in."+cs.ext)
+			os.WriteFile(in, []byte(cs.text), 0o644)
+			wit := "escaped spelling in ." + cs.ext + ": " + strings.TrimSpace(cs.text)
+			c.Eval()
+			c.Trans(3)
+			p := newParser()
+			err := p.MergeFileLayers(in)
+			var outs []any
+			if err == nil {
+				outs, err = p.OutputDocuments()
+			}
+			c.Validated()
+			c.Nontrivial()
+			if err == nil {
+				c.Outcome("MARKER-ACCEPTED")
+				c.Fail("marker-is-refused", "marker-hidden-or-accepted", wit, map[string]any{"output": outs})
+				return
+			}
+			for _, out := range []string{"o.json", "o.yaml"} {
+				so, _, code, rerr := runTool(dir, "bkl", "-o", out, "in."+cs.ext)
+				if rerr != nil {
+					return
+				}
+				if code == 0 {
+					b, _ := os.ReadFile(filepath.Join(dir, out))
+					c.Outcome("MARKER-ACCEPTED-BY-CLI")
+					c.Fail("marker-is-refused", "cli-reports-success", wit+" via bkl -o "+out, map[string]any{"stdout": so, "file": string(b)})
+					return
+				}
+			}
+			c.Outcome("refused")
 		}}
 }
